@@ -296,8 +296,17 @@ func llmnrScenarios(c *vf.Ctx, B int) []*scenario {
 	out = append(out, &scenario{name: "llmnr-client-close-race", keys: []string{"query-returns-response-with-own-id", "readloop-exits-after-close"}, bound: B, body: func(x *exec) {
 		clientScenario(x, "in-order", true)
 	}})
+	// two owners of the client close it at the same moment (a deferred Close and a shutdown path)
+	out = append(out, &scenario{name: "llmnr-client-two-closers", keys: []string{"query-returns-response-with-own-id", "readloop-exits-after-close"}, bound: B, body: func(x *exec) {
+		twoClosers = true
+		defer func() { twoClosers = false }()
+		clientScenario(x, "in-order", true)
+	}})
 	return out
 }
+
+// twoClosers makes the close-race variant of clientScenario start a second closing thread.
+var twoClosers bool
 
 func clientScenario(x *exec, mode string, closeRace bool) {
 	resp, err := vnet.ListenMulticastUDP("udp4", nil, llmnrGroup)
@@ -387,9 +396,12 @@ func clientScenario(x *exec, mode string, closeRace bool) {
 			}
 		}
 	})
-	var tc *vrt.T
+	var tc, tc2 *vrt.T
 	if closeRace {
 		tc = vrt.GoNamed("closer", func() { cl.Close() })
+		if twoClosers {
+			tc2 = vrt.GoNamed("closer2", func() { cl.Close() })
+		}
 	}
 	for _, t := range ths {
 		vrt.Join(t)
@@ -397,6 +409,9 @@ func clientScenario(x *exec, mode string, closeRace bool) {
 	vrt.Join(rt)
 	if tc != nil {
 		vrt.Join(tc)
+	}
+	if tc2 != nil {
+		vrt.Join(tc2)
 	}
 	for i := 0; i < 2; i++ {
 		r := res[i]
